@@ -520,6 +520,9 @@ func validateResultPath(repoDir, relPath string) (string, error) {
 	if info.IsDir() {
 		return "", fmt.Errorf("result path must be a file, not directory: %s", relPath)
 	}
+	if !info.Mode().IsRegular() {
+		return "", fmt.Errorf("result path must be a regular file: %s", relPath)
+	}
 
 	return relPath, nil
 }
